@@ -74,6 +74,7 @@ func TestC03Shutdown(t *testing.T) {
 		img := w.Crash(w.St.Media.Log.Len(), ch)
 		w2 = w.Restart(img)
 		w.CheckSurvivorsFresh("C03 graceful shutdown", img, must)
+		postRestartUploads(t, w2, c, must)
 
 		c.ClassIf(parkedAtShutdown > 0, "shutdown_with_upload_parked")
 		c.ClassIf(keepParked && parkedAtShutdown > 0, "upload_parked_through_final_sync")
@@ -126,6 +127,7 @@ func TestC03Commit(t *testing.T) {
 		img := w.Crash(cut, sim.NoneLost{})
 		w2 = w.Restart(img)
 		w.CheckSurvivorsFresh("C03 crash after a completed commit", img, must)
+		postRestartUploads(t, w2, c, must)
 		c.ClassIf(committed, "commit_in_final_drain")
 		c.ClassIf(len(must) > 0, "survivors_checked")
 		c.ClassIf(w.St.BL.PopFronts > 0, "rotated")
@@ -136,4 +138,40 @@ func TestC03Commit(t *testing.T) {
 		c.Sample(func() string { return w2.Render() })
 		c.End()
 	})
+}
+
+// postRestartUploads: uploads accepted after the restart must not
+// overwrite space of surviving objects. As long as the restarted store
+// has not rotated any block out, every survivor stays readable.
+func postRestartUploads(t *rapid.T, w2 *lstore.World, c *vstats.Case, must []lstore.ObjInst) {
+	if len(must) == 0 || !rapid.Bool().Draw(t, "postUploads") {
+		return
+	}
+	k := rapid.IntRange(1, 4).Draw(t, "postUploadCount")
+	for i := 0; i < k; i++ {
+		size := rapid.IntRange(0, w2.Cfg.BlockSize()/4+1).Draw(t, "postSize")
+		var u *lstore.Upload
+		if w2.Cfg.Mutable {
+			u = w2.StartPut(w2.NewACObject(), "", "good", w2.ACContent(size), nil, nil)
+		} else {
+			o := w2.NewObject(size, lstore.Functions[0])
+			u = w2.StartPut(o, "", "good", o.Data, nil, nil)
+		}
+		w2.FinishPut(u)
+	}
+	checked := 0
+	for _, it := range must {
+		if w2.St.BL.PopFronts != 0 {
+			break // rotation after the restart: eviction is legitimate from here on
+		}
+		r := w2.Get(it.Obj, it.Instance)
+		if w2.St.BL.PopFronts != 0 || r.EnvError {
+			break
+		}
+		if !r.Found {
+			t.Fatalf("C03: object %d (inst %q) survived the restart but is gone after %d further uploads although no block was rotated out: %v\n%s", it.Obj.ID, it.Instance, k, r.Err, w2.Render())
+		}
+		checked++
+	}
+	c.ClassIf(checked > 0, "survivors_rechecked_after_post_restart_uploads")
 }
